@@ -631,7 +631,7 @@ def main(argv):
     cov["own_driver"] = dict(own_cnt, wall_s=round(time.time() - t_own, 1))
     with ThreadPoolExecutor(max_workers=1) as side:
         fut = side.submit(_recorder_trace, tier, dtrace, cov)
-        done = _run_jobs(jobs, 1 if serial else (len(jobs) if quick else 4))
+        done = _run_jobs(jobs, 1 if serial else (len(jobs) if quick else 3))
         rec_events, rec_mats = fut.result()
 
     selftests = {}
